@@ -569,6 +569,10 @@ impl World {
         let k = self.sh.round.get() + 1;
         self.sh.round.set(k);
         self.stats.stabilises += 1;
+        if std::env::var("VH_TRACE").is_ok() {
+            eprintln!("=== before round {k}");
+            self.debug_unsafe();
+        }
         self.sync_dyns();
         let env = self.model.env();
         let written: Vec<bool> = self.model.vars.iter().map(|v| v.written).collect();
@@ -1204,7 +1208,7 @@ impl World {
         for n in 0..self.model.nodes.len() {
             if cone_end.contains(&n) {
                 self.track[n].cached = Some(refs[n]);
-            } else if cone_start.contains(&n) {
+            } else if cone_start.contains(&n) || cone_union.contains(&n) {
                 // may or may not have been recomputed before it became unnecessary
                 if self.track[n].cached.is_some() && self.track[n].cached != Some(refs[n]) {
                     self.track[n].cached = None;
@@ -1904,7 +1908,21 @@ impl World {
             if matches!(it, D::State) {
                 state_gone = true;
             }
+            {
+                // keep the model's view of the observers in step with what was just dropped
+                let t = self.tables.borrow();
+                for (i, o) in self.observers.iter_mut().enumerate() {
+                    o.clones = t.observers[i].len();
+                    if o.clones == 0 {
+                        o.state = ObsState::Gone;
+                    }
+                }
+            }
             if interleave && !state_gone && !poisoned && rng.chance(1, 6) && self.unsafe_new_observers().is_empty() {
+                if std::env::var("VH_TRACE").is_ok() {
+                    eprintln!("=== teardown stabilise");
+                    self.debug_unsafe();
+                }
                 let st = self.st.clone();
                 if let Some(st) = st {
                     let r = catch_unwind(AssertUnwindSafe(|| st.stabilise()));
@@ -1956,4 +1974,20 @@ pub fn is_fn_node(kind: &Kind) -> bool {
 
 fn same_shape(a: Upd, b: Upd) -> bool {
     matches!((a, b), (Upd::Init(_), Upd::Init(_)) | (Upd::Changed(_), Upd::Changed(_)) | (Upd::Invalidated, Upd::Invalidated))
+}
+
+impl World {
+    /// debugging aid: why does the sanitize rule accept or reject the fresh observers
+    pub fn debug_unsafe(&self) {
+        for (i, o) in self.observers.iter().enumerate() {
+            eprintln!("  obs o{i} on n{} state {:?} clones {}", o.node, o.state, o.clones);
+        }
+        for (n, info) in self.model.nodes.iter().enumerate() {
+            if let Kind::Adopted(d) = &info.kind {
+                eprintln!("  n{n} adopted d{d} scope {:?} tm {:?} valid {}", self.model.dyns[*d].scope, self.model.dyns[*d].tm, self.model.dyn_valid(*d));
+            }
+        }
+        eprintln!("  bind_force {:?}", self.model.bind_force);
+        eprintln!("  unsafe -> {:?}", self.unsafe_new_observers());
+    }
 }
